@@ -904,8 +904,7 @@ impl Mp4TrackWriter {
     pub(crate) fn write_end<W: Write + Seek>(&mut self, writer: &mut W) -> Result<TrakBox> {
         self.write_chunk(writer)?;
 
-        if self.trak.mdia.minf.stbl.stss.is_none()
-            && self.trak.mdia.minf.stbl.stsz.sample_count > 0
+        if self.trak.mdia.minf.stbl.stss.is_none() && self.trak.mdia.minf.stbl.stsz.sample_count > 0
         {
             // No sample was a sync sample. An absent stss box means that every
             // sample is a sync sample, so an empty one has to be written.
